@@ -102,27 +102,58 @@ def ref_parse(text):
     return e
 
 
-def ref_term(t):
+def _cat(l, r):
+    """n-ary text concatenation; tostr(tostr(x)) = tostr(x) and associativity of + on strings are built in (stated assumption)"""
+    items = []
+    for x in (l, r):
+        items.extend(x[1] if x[0] == 'cat' else [x])
+    return ('cat', items)
+
+
+def ref_tree(t):
+    """normalised operator tree: ('cell', n) ('num', f) ('str', s) ('bool', b) ('op', name, args...) ('cat', [items])"""
     k = t[0]
     if k == 'par':
-        return ref_term(t[1])
+        return ref_tree(t[1])
     if k == 'num':
-        return const('num_' + repr(float(t[1])))
+        return ('num', float(t[1]))
+    if k == 'str':
+        return ('str', t[1])
+    if k == 'bool':
+        return ('bool', t[1])
+    if k == 'ref':
+        return ('cell', t[1])
+    if k in ('neg', 'pos'):
+        return ('op', k, ref_tree(t[1]))
+    if k == 'pct':
+        return ('op', 'div', ref_tree(t[1]), ('num', 100.0))
+    op, l, r = t[1], ref_tree(t[2]), ref_tree(t[3])
+    if op == '&':
+        return _cat(l, r)
+    name = {'+': 'add', '-': 'sub', '*': 'mul', '/': 'div', '=': 'cmp_eq', '<>': 'cmp_ne', '<': 'cmp_lt', '<=': 'cmp_le', '>': 'cmp_gt', '>=': 'cmp_ge'}[op]
+    return ('op', name, l, r)
+
+
+def to_z3(t):
+    k = t[0]
+    if k == 'cell':
+        return const('cell_' + t[1])
+    if k == 'num':
+        return const('num_' + repr(t[1]))
     if k == 'str':
         return const('str_' + t[1].encode().hex())
     if k == 'bool':
         return const('bool_' + str(t[1]))
-    if k == 'ref':
-        return const('cell_' + t[1])
-    if k in ('neg', 'pos'):
-        return fn(k, 1)(ref_term(t[1]))
-    if k == 'pct':
-        return fn('div', 2)(ref_term(t[1]), const('num_100.0'))
-    op, l, r = t[1], ref_term(t[2]), ref_term(t[3])
-    if op == '&':
-        return fn('add', 2)(fn('tostr', 1)(l), fn('tostr', 1)(r))
-    name = {'+': 'add', '-': 'sub', '*': 'mul', '/': 'div', '=': 'cmp_eq', '<>': 'cmp_ne', '<': 'cmp_lt', '<=': 'cmp_le', '>': 'cmp_gt', '>=': 'cmp_ge'}[op]
-    return fn(name, 2)(l, r)
+    if k == 'cat':
+        acc = const('nil')
+        for x in reversed(t[1]):
+            acc = fn('cat2', 2)(fn('tostr', 1)(to_z3(x)), acc)
+        return acc
+    return fn(t[1], len(t) - 2)(*[to_z3(x) for x in t[2:]])
+
+
+def ref_term(t):
+    return to_z3(ref_tree(t))
 
 
 def ref_eval(t, env):
@@ -177,43 +208,52 @@ def emitted_return_expr(src: str, method: str):
 CMP = {'<': 'cmp_lt', '<=': 'cmp_le', '>': 'cmp_gt', '>=': 'cmp_ge', '==': 'cmp_eq', '!=': 'cmp_ne'}
 
 
-def emitted_term(node, cellname):
+def emitted_tree(node, cellname):
     """cellname: uid -> slot name (e.g. '_0_0_0' -> 'A1')"""
+    def is_str_call(n):
+        return isinstance(n, ast.Call) and isinstance(n.func, ast.Name) and n.func.id == 'str' and len(n.args) == 1
+
     if isinstance(node, ast.Constant):
         v = node.value
         if isinstance(v, bool):
-            return const('bool_' + str(v))
+            return ('bool', v)
         if isinstance(v, (int, float)):
-            return const('num_' + repr(float(v)))
+            return ('num', float(v))
         if isinstance(v, str):
-            return const('str_' + v.encode().hex())
+            return ('str', v)
         raise EmitError(f'constant {v!r}')
     if isinstance(node, ast.BinOp):
+        if isinstance(node.op, ast.Add) and is_str_call(node.left) and is_str_call(node.right):
+            return _cat(emitted_tree(node.left.args[0], cellname), emitted_tree(node.right.args[0], cellname))
         name = {ast.Add: 'add', ast.Sub: 'sub', ast.Mult: 'mul', ast.Div: 'div'}.get(type(node.op))
         if not name:
             raise EmitError(f'operator {type(node.op).__name__}')
-        return fn(name, 2)(emitted_term(node.left, cellname), emitted_term(node.right, cellname))
+        return ('op', name, emitted_tree(node.left, cellname), emitted_tree(node.right, cellname))
     if isinstance(node, ast.UnaryOp):
         name = {ast.USub: 'neg', ast.UAdd: 'pos'}.get(type(node.op))
         if not name:
             raise EmitError(f'unary {type(node.op).__name__}')
-        return fn(name, 1)(emitted_term(node.operand, cellname))
+        return ('op', name, emitted_tree(node.operand, cellname))
     if isinstance(node, ast.Call):
         f = node.func
-        if isinstance(f, ast.Name) and f.id == 'str' and len(node.args) == 1:
-            return fn('tostr', 1)(emitted_term(node.args[0], cellname))
+        if is_str_call(node):
+            return ('op', 'tostr', emitted_tree(node.args[0], cellname))
         if isinstance(f, ast.Attribute) and isinstance(f.value, ast.Name) and f.value.id == 'self':
             if f.attr == '_cell_preprocessor' and len(node.args) == 1 and isinstance(node.args[0], ast.Constant):
                 uid = node.args[0].value
                 if uid not in cellname:
                     raise EmitError(f'reference to unexpected cell {uid}')
-                return const('cell_' + cellname[uid])
+                return ('cell', cellname[uid])
             if f.attr == '_compare' and len(node.args) == 3 and isinstance(node.args[0], ast.Constant) and node.args[0].value in CMP:
-                return fn(CMP[node.args[0].value], 2)(emitted_term(node.args[1], cellname), emitted_term(node.args[2], cellname))
+                return ('op', CMP[node.args[0].value], emitted_tree(node.args[1], cellname), emitted_tree(node.args[2], cellname))
             if f.attr == '_normalize_float_number' and len(node.args) == 1:
-                return emitted_term(node.args[0], cellname)         # documented 15-significant-digit normalisation: identity at term level
+                return emitted_tree(node.args[0], cellname)         # documented 15-significant-digit normalisation: identity at term level
         raise EmitError(f'call {ast.unparse(node)[:60]}')
     raise EmitError(f'node {type(node).__name__}')
+
+
+def emitted_term(node, cellname):
+    return to_z3(emitted_tree(node, cellname))
 
 
 _solver = None
